@@ -12,7 +12,9 @@ from sa.dom import COMMENT, ETREE_COMMENT, ETREE_PI, El, install_dom
 from sa.sym import closure_of, explore, method_of
 
 OPACITIES = [None, "0", "0.5", "1", "1.5", "-0.5", "0.25", "1.0"]
-KIDS = [(), ("path",), ("path", "path"), ("g", "path"), ("path", "g", "path"), ("g",), ("text", "path"), ("path", "path", "path")]
+KIDS = [(), ("path",), ("path", "path"), ("g", "path"), ("path", "g", "path"), ("g",), ("text", "path"), ("path", "path", "path"), ("path:bar", "path:small", "path:stack")]
+# a wide bar, a small box elsewhere whose left edge lies between, and a box stacked on the bar: the overlapping pair is adjacent neither in document order nor by left edge
+SHAPES = {"bar": "M0,0 L100,0 L100,10 L0,10 Z", "small": "M10,50 L20,50 L20,60 L10,60 Z", "stack": "M30,5 L40,5 L40,15 L30,15 Z"}
 
 
 def clamp(v):
@@ -36,10 +38,13 @@ def _mk(tag, attrib, kids, noise):
         if nc > i:
             ch.append(El(ETREE_COMMENT, name=f"c{i}"))
         at = {"id": f"k{i}"}
-        if k == "path":
+        if ":" in k:
+            k, shape = k.split(":")
+            at["d"] = SHAPES[shape]
+        elif k == "path":
             # concrete squares: the first and the last path overlap, those between lie elsewhere (so with three children the overlapping
             # pair is not adjacent): flattening a translucent group would change how they composite
-            paths = [j for j, kk in enumerate(kids) if kk == "path"]
+            paths = [j for j, kk in enumerate(kids) if kk.split(":")[0] == "path"]
             x = 0 if i == paths[0] else 3 if i == paths[-1] else 100 * i
             at["d"] = f"M{x},0 L{x + 10},0 L{x + 10},10 L{x},10 Z"
         ch.append(El(k, at, name=f"k{i}"))
